@@ -100,8 +100,20 @@ def apply_all(s, ro, state_txt, msgs, ctx, mid0=200):
     return ro, cur
 
 
+def message_object(s, msg_txt, via_reader):
+    """The message as an object: parsed by the caller, or the object a MosReader hands out (what a caller
+    gets who walks a collection's readers) - one is as good as the other."""
+    m = s.load(msg_txt)
+    if via_reader:
+        import mosromgr.moscollection as mcmod
+        m = mcmod.MosReader.from_string(msg_txt).mos_object
+        s.hist['message_objects_from_a_reader'] += 1
+    return m
+
+
 def case(s, idx, kind):
     rng = s.rng('case', idx, kind)
+    via_reader = idx % 3 == 1
     pool = gen.text_pool('plain')
     ids = gen.Ids('R%d.' % idx)
     ro_txt = gen.rand_ro(rng, n_stories=rng.randint(2, 5), pool=pool, pretty=rng.random() < 0.5)
@@ -111,10 +123,10 @@ def case(s, idx, kind):
     if kind == 'roItemInsert' or kind == 'EAItemInsert':
         pass
     ctx = {'case': idx, 'kind': kind}
-    wit = {'type': 'c13', 'ro_txt': ro_txt, 'msg_txt': msg_txt, 'kind': kind}
+    wit = {'type': 'c13', 'ro_txt': ro_txt, 'msg_txt': msg_txt, 'kind': kind, 'via_reader': via_reader}
     # --- (a) and (b)
     ro1 = s.load(ro_txt)
-    m = s.load(msg_txt)
+    m = message_object(s, msg_txt, via_reader)
     t0 = str(m)
     ro1, err, wl = s.add(ro1, m)
     judged = s.drain_and_judge(None, ctx)
@@ -159,7 +171,7 @@ def case(s, idx, kind):
     # --- (d) two running orders through one message object
     ro4 = s.load(ro_txt)
     ro5 = s.load(ro_txt)
-    m2 = s.load(msg_txt)
+    m2 = message_object(s, msg_txt, via_reader)
     ro4, e4, _ = s.add(ro4, m2)
     ro5, e5, _ = s.add(ro5, m2)
     j = s.drain_and_judge(None, ctx)
@@ -213,17 +225,18 @@ def any_kind_reuse(s, idx):
                 a_, t_ = rng.sample(I_, 2)
                 msg_txt = B.msg_doc(kind, 50, story_ref=sid_, ids=[a_, 'later-%d' % idx],
                                     **({} if kind == 'EAItemSwap' else {'target': rng.choice([t_, B.BLANK])}))
-    judge_reuse(s, ro_txt, msg_txt, kind, idx)
+    judge_reuse(s, ro_txt, msg_txt, kind, idx, via_reader=(idx // len(B.ALL_KINDS)) % 3 == 1)
 
 
-def judge_reuse(s, ro_txt, msg_txt, kind, idx):
+def judge_reuse(s, ro_txt, msg_txt, kind, idx, via_reader=False):
     import contextlib
     import io
     try:
-        m = s.load(msg_txt)
+        m = message_object(s, msg_txt, via_reader)
     except Exception:
         return
-    wit = {'type': 'c13', 'scenario': 'any', 'ro_txt': ro_txt, 'msg_txt': msg_txt, 'kind': kind, 'edits': []}
+    wit = {'type': 'c13', 'scenario': 'any', 'ro_txt': ro_txt, 'msg_txt': msg_txt, 'kind': kind, 'edits': [],
+           'via_reader': via_reader}
     t0 = str(m)
     for name in ('story', 'stories', 'item', 'items', 'source_story', 'target_story', 'source_stories'):
         try:
@@ -484,7 +497,7 @@ def run(s):
 def replay(s, data):
     w = data['witness']
     if w.get('scenario') == 'any':
-        judge_reuse(s, w['ro_txt'], w['msg_txt'], w['kind'], 0)
+        judge_reuse(s, w['ro_txt'], w['msg_txt'], w['kind'], 0, via_reader=w.get('via_reader', False))
         return
     if w.get('type') == 'content-only':
         return replay_content_only(s, w)
@@ -495,7 +508,7 @@ def replay(s, data):
     if w.get('type') != 'c13':
         return K.replay_transition(s, data)
     ro1 = s.load(w['ro_txt'])
-    m = s.load(w['msg_txt'])
+    m = message_object(s, w['msg_txt'], w.get('via_reader', False))
     t0 = str(m)
     ro1, err, _ = s.add(ro1, m)
     s.drain_and_judge()
